@@ -520,7 +520,8 @@ def cmd_selftest_mutants(names):
         meta = os.path.join(d, "meta.json")
         if not os.path.isfile(meta) or (names and os.path.basename(d) not in names):
             continue
-        pid = json.load(open(meta))["breaks_property"]
+        mj = json.load(open(meta))
+        pid = mj["breaks_property"]
         scratch = tempfile.mkdtemp(prefix="verif-mutant-")
         try:
             copy = os.path.join(scratch, "repo")
@@ -534,6 +535,9 @@ def cmd_selftest_mutants(names):
             keep = open(ev).read() if os.path.exists(ev) else None
             env = goenv()
             env.update(VERIF_REPO=copy, VERIF_REPLAY_DIR=os.path.join(scratch, "replays"))
+            # a change that only a very expensive profile reaches (thorough tier) names the environment that forces
+            # that profile, so that the self-test can still use the quick command
+            env.update(mj.get("selftest_env") or {})
             os.makedirs(env["VERIF_REPLAY_DIR"])
             t0 = time.time()
             p = subprocess.run([os.path.join(VERIF, "check"), pid, "quick"], env=env, stdout=subprocess.PIPE, stderr=subprocess.STDOUT, text=True)
